@@ -145,6 +145,92 @@ func execC20(c Case) string {
 			return "torn:" + itoa(torn)
 		}
 		return "ok"
+	case "reloadsame": // reloadsame <k> <nops> <seed>: Reload with the message that is loaded is a no-op in every
+		// sequential order, so no insertion made around it may be lost
+		k, nops, seed := atoi(a[0]), atoi(a[1]), atou(a[2])
+		lost := 0
+		for round := 0; round < 20; round++ {
+			msg := wire.NewMsgFilterLoad(make([]byte, 256), 3, uint32(seed)+uint32(round), wire.BloomUpdateNone)
+			f := bloom.LoadFilter(msg)
+			var wg sync.WaitGroup
+			stop := make(chan struct{})
+			wg.Add(1)
+			go func() {
+				defer wg.Done()
+				for {
+					select {
+					case <-stop:
+						return
+					default:
+						f.Reload(msg)
+					}
+				}
+			}()
+			var wi sync.WaitGroup
+			for g := 0; g < k; g++ {
+				wi.Add(1)
+				go func(g int) {
+					defer wi.Done()
+					for j := 0; j < nops; j++ {
+						f.Add(c20Item(seed+uint64(round), g, j))
+					}
+				}(g)
+			}
+			wi.Wait()
+			close(stop)
+			wg.Wait()
+			for g := 0; g < k; g++ {
+				for j := 0; j < nops; j++ {
+					if !f.Matches(c20Item(seed+uint64(round), g, j)) {
+						lost++
+					}
+				}
+			}
+		}
+		if lost > 0 {
+			return "lost:" + itoa(lost)
+		}
+		return "ok"
+	case "concquery": // concquery <k> <n> <seed>: queries do not change the filter, so concurrent queries for inserted
+		// items (byte strings, hashes, outpoints) all answer true, as in every sequential order
+		k, n, seed := atoi(a[0]), atoi(a[1]), atou(a[2])
+		f := bloom.LoadFilter(wire.NewMsgFilterLoad(make([]byte, 1024), 4, uint32(seed), wire.BloomUpdateNone))
+		ops := []*wire.OutPoint{}
+		for j := 0; j < n; j++ {
+			it := c20Item(seed, 0, j)
+			f.Add(it)
+			op := wire.NewOutPoint(mkHash(append(it, make([]byte, 20)...)), uint32(j))
+			f.AddOutPoint(op)
+			ops = append(ops, op)
+		}
+		var wg sync.WaitGroup
+		miss := make([]int, k)
+		for g := 0; g < k; g++ {
+			wg.Add(1)
+			go func(g int) {
+				defer wg.Done()
+				for rep := 0; rep < 30; rep++ {
+					for j := 0; j < n; j++ {
+						x := (j*7 + g*13 + rep) % n
+						if !f.MatchesOutPoint(ops[x]) {
+							miss[g]++
+						}
+						if !f.Matches(c20Item(seed, 0, x)) {
+							miss[g]++
+						}
+					}
+				}
+			}(g)
+		}
+		wg.Wait()
+		tot := 0
+		for _, m := range miss {
+			tot += m
+		}
+		if tot > 0 {
+			return "false-negatives:" + itoa(tot)
+		}
+		return "ok"
 	case "gcsconc": // gcsconc <n> <k> <seed>
 		n, k, seed := atoi(a[0]), atoi(a[1]), atou(a[2])
 		var key [gcs.KeySize]byte
@@ -206,6 +292,8 @@ func genC20(r *Rng, tier string, emit func(Case)) {
 		e("stress", "det", append(args, "0")...)
 		e("stress", "reload", append(args, "1")...)
 	}
+	e("reloadsame", "reload-current-message", "4", "20", u64s(r.U64()&0xffff))
+	e("concquery", "concurrent-queries", "8", "200", u64s(r.U64()&0xffff))
 	e("gcsconc", "queries", "200", "16", u64s(r.U64()&0xffff))
 	ra := 2
 	if tier == "thorough" {
